@@ -623,6 +623,10 @@ func c17Rows(c *Ctx, p *Prog) {
 				looseGate = true
 			case s.Op == "binop" && s.Tok == token.EQL && s.Args[0].IsFieldLoad(meanF) && s.Args[1].IsFieldLoad(meanF):
 				same = &vv
+			case s.Op == "binop" && s.Args[1].isConst() && !isZeroConst(s.Args[1]) && strings.Contains(s.Args[0].String(), ".Mean") && (s.Tok == token.LSS || s.Tok == token.LEQ || s.Tok == token.GTR || s.Tok == token.GEQ):
+				// a quantity in the unit of the measurements compared with an absolute constant
+				c.Bad(R, "rows:absolute-tolerance", site, "the row logic compares "+truncate(s.Args[0].String(), 100)+" with the constant "+s.Args[1].String()+": the means carry the unit of the measurements, so an absolute tolerance is a different test for seconds than for nanoseconds — a significant change between values around 1e-10 is reported as 0.00% and not flagged (equal means are means that compare ==)")
+				return
 			case s.Op == "binop" && s.Tok == token.LSS && s.Args[1].isConst() && !strings.Contains(s.Args[0].String(), "dyn@") || (s.Op == "binop" && s.Tok == token.LSS && s.Args[1].isConst() && strings.Contains(str, ".Mean")):
 				neg = &vv
 			case s.Op == "binop" && s.Tok == token.LSS && s.Args[0].isConst() && strings.Contains(s.Args[1].String(), ".Mean"):
@@ -1111,4 +1115,8 @@ func c17Percentile(c *Ctx, p *Prog) {
 		}
 	}
 	c.Floor(R, "Percentile cases evaluated", nCases, 8)
+}
+
+func isZeroConst(s *Sym) bool {
+	return s.isConst() && s.Const != nil && (s.Const.Kind() == constant.Int || s.Const.Kind() == constant.Float) && constant.Sign(s.Const) == 0
 }
